@@ -319,6 +319,74 @@ def event_items(tier):
     return out
 
 
+def edit_cases():
+    """(spec before, spec after, edit applied to the live objects) - the model is edited between two runs on one object"""
+    import copy
+
+    out = []
+    for links in ([], [[0, 1, "FS"]], [[0, 2, "SS"]]):
+        base = {"tasks": [{"name": "T0", "work": 2.0}, {"name": "T1", "work": 1.0}, {"name": "T2", "work": 2.0}], "links": links,
+                "teams": [{"name": "TM0", "targets": [0, 1], "workers": [{"name": "W0", "skills": {"T0": 1.0, "T1": 1.0, "T2": 1.0}, "cost": 1.0}]},
+                          {"name": "TM1", "targets": [1, 2], "workers": [{"name": "W1", "skills": {"T0": 1.0, "T1": 1.0, "T2": 1.0}, "cost": 2.0}]}]}
+        b1 = copy.deepcopy(base)
+        b1["teams"][0]["targets"] = [0, 1, 2]
+        out.append((base, b1, "team-add-target"))
+        b2 = copy.deepcopy(base)
+        b2["teams"][1]["targets"] = [1]
+        out.append((base, b2, "team-remove-target"))
+        b3 = copy.deepcopy(base)
+        b3["teams"][0]["workers"][0]["skills"]["T0"] = 2.0
+        out.append((base, b3, "worker-skill"))
+        b4 = copy.deepcopy(base)
+        b4["tasks"][2]["work"] = 1.0
+        out.append((base, b4, "task-work"))
+        b5 = copy.deepcopy(base)
+        b5["teams"][1]["workers"][0]["solo"] = True
+        out.append((base, b5, "worker-solo"))
+    return out
+
+
+def apply_edit(m, name):
+    if name == "team-add-target":
+        m.byname["TM0"].append_targeted_task(m.byname["T2"])
+    elif name == "team-remove-target":
+        m.byname["TM1"].targeted_task_list.remove(m.byname["T2"])
+        m.byname["T2"].allocated_team_list.remove(m.byname["TM1"])
+    elif name == "worker-skill":
+        m.byname["W0"].workamount_skill_mean_map["T0"] = 2.0
+    elif name == "task-work":
+        m.byname["T2"].default_work_amount = 1.0
+    elif name == "worker-solo":
+        m.byname["W1"].solo_working = True
+
+
+def work_edits(chunk):
+    col = engines.Collector()
+    for a, b, name in chunk:
+        opts = {"rule": "TSLACK", "max_time": 30}
+        kw = runner.sim_kwargs(opts)
+        fresh = runner.prepare(b, opts)
+        fresh.project.simulate(**runner.sim_kwargs(opts))
+        ref = jdump(fresh)
+        for nruns in (1, 2):
+            m = runner.prepare(a, opts)
+            for _ in range(nruns):
+                m.project.simulate(**runner.sim_kwargs(opts))
+            apply_edit(m, name)
+            m.project.simulate(**runner.sim_kwargs(opts))
+            got = jdump(m)
+            col.evaluations += nruns + 2
+            col.checks["c09.edit-between-runs"] += 1
+            key = hash((repr(a), name, nruns))
+            col.transitions.add(key)
+            col.states.add(hash((key, got)))
+            col.nontrivial.add(key)
+            if got != ref:
+                col.violation({"property": "C09", "sig": "C09:run-after-model-edit-differs-from-fresh-model:" + name, "kind": "edit", "spec": a, "spec_after": b, "edit": name, "nruns": nruns,
+                               "detail": {"first_difference(path, fresh edited model, edited after %d run(s))" % nruns: first_diff(ref, got)}})
+    return col
+
+
 def perm_items(tier):
     out = []
     if tier == "quick":
@@ -405,13 +473,14 @@ def run(tier, seed):
     hi = hist_items(tier)
     col.merge(engines.fanout(hi, work_hist, seed=seed))
     cross_process(col)
+    col.merge(engines.fanout(edit_cases(), work_edits, seed=seed))
     ei = event_items(tier)
     col.merge(engines.fanout(ei, work_events, seed=seed))
     meta = {
         "level": "model_checking",
         "rule": "schedule exploration: for every 3-task workflow over the four dependency kinds x works {1,2} x layouts x rules (thorough: also 4-task FS/FF/SS) and FAC models, ALL n! "
         "assignments of hash ranks to tasks (and all permutations for components), i.e. every iteration order of every internal set of tasks/components, complete dump compared with "
-        "the identity order (and all orders of worker hashes); histories on one object (simulate;simulate, simulate with other absence/auto arguments or log edits then simulate, backward_simulate with every flag pair then simulate), rebuilt models with the library's id()-hashed classes, contamination histories (activity on project A, then "
+        "the identity order (and all orders of worker hashes); histories on one object (simulate;simulate, simulate with other absence/auto arguments or log edits then simulate, backward_simulate with every flag pair then simulate), rebuilt models with the library's id()-hashed classes, edits of the model between two runs on one object (team targeting added/removed, skill, work amount, solo flag) compared with a freshly built edited model, contamination histories (activity on project A, then "
         "default-argument simulate on a fresh project B, mutable defaults compared), and one sub-family in two fresh interpreters with different PYTHONHASHSEED; per-iteration-event deviations: with a set subclass injected into the library's modules, every single iteration "
         "event of a run is given every alternative order of that set (deviation bound 1) on 2-3 task models; "
         "non-trivial = distinct models with at least one dependency link (permutations) or explored history roots",
@@ -432,6 +501,9 @@ def replay(v):
     if v.get("kind") == "hist":
         col = work_hist([(v["spec"], v["opts"])])
         return col.violations
+    if v.get("kind") == "edit":
+        col = work_edits([(v["spec"], v["spec_after"], v["edit"])])
+        return [x for x in col.violations if x.get("nruns") == v.get("nruns")]
     if v.get("kind") == "event":
         col = work_events([(v["spec"], v["opts"])])
         return [x for x in col.violations if x.get("event") == v.get("event") and x.get("perm") == v.get("perm")]
